@@ -69,7 +69,9 @@ class RequestChannelCommon(StreamHandler, Publisher, Subscription, Disposable, m
                 logger().warning('%s: Received request_n but no publisher provided', self.__class__.__name__)
 
         elif isinstance(frame, PayloadFrame):
-            if frame.flags_next:
+            if self.remote_subscriber is None:
+                pass  # no local subscriber was provided for the inbound direction
+            elif frame.flags_next:
                 self.remote_subscriber.on_next(payload_from_frame(frame),
                                                is_complete=frame.flags_complete)
             elif frame.flags_complete:
